@@ -56,15 +56,17 @@ def declare(rep):
 
 
 def innermost(it, v):
-    """the struct that owns the `nodes` stack inside an iterator value"""
+    """the struct that owns the `nodes` stack inside an iterator value (through any single-iterator wrapper field)"""
     for _ in range(6):
         if isinstance(v, StructV) and "nodes" in v.fields:
             return v
         if isinstance(v, StructV):
             nxt = None
-            for k in ("inner", "0"):
-                if k in v.fields:
-                    nxt = it.force(v.fields[k]) if it else v.fields[k].value
+            cand = [k for k in ("inner", "0") if k in v.fields] or list(v.fields)
+            for k in cand:
+                x = it.force(v.fields[k]) if it else v.fields[k].value
+                if isinstance(x, StructV) and x.adt not in (absint.OPTION,):
+                    nxt = x
                     break
             if nxt is None:
                 return None
